@@ -908,84 +908,119 @@ def stage_range(ctx, have_model):
     from ipv8.attestation.wallet.pengbaorange.structs import PengBaoAttestation
     from ipv8.attestation.wallet.primitives.structs import unpack_pair
     r = ctx.rng("range")
-    ninside = 14 if ctx.quick else 80
+    nranges = 5 if ctx.quick else 24
     cases, meta = [], []
-    stats = {"inside": 0, "outside": 0, "float_sqrt_dev": 0, "forced": 0}
-    for i in range(ninside):
-        if i % 3 == 0:
-            a, b = 18, 200
-        else:
-            a = r.choice([0, 1, 5, 18, 1000, r.randrange(0, 5000)])
-            b = max(1, a + r.choice([0, 1, 2, 10, 182, 4000, r.randrange(0, 60000)]))   # max = 0 is not supported (EL.create)
-        v = r.choice([a, b, (a + b) // 2, r.randint(a, b), r.randint(a, b)])
-        ks = 32 if r.random() < 0.8 else r.choice([40, 48, 64])
-        alg = range_alg(a, b, ks)
-        sk = guarded(alg.generate_secret_key)
-        pk = sk.public_key()
-        case = {"kind": "range", "a": a, "b": b, "v": v, "key_size": ks}
-        with patched_range(r) as d:
-            att = create_attest_pair(pk, v, a, b, ks)
-            blob = att.serialize_private(pk)
-            att_p = PengBaoAttestation.unserialize_private(sk, blob, "f")
-            att_v = PengBaoAttestation.unserialize(att_p.serialize(), "f")
-            priv = att.privatedata
-            pv = att_p.privatedata
-            if (priv.m1, priv.m2, priv.m3, priv.r1, priv.r2, priv.r3) != (pv.m1, pv.m2, pv.m3, pv.r1, pv.r2, pv.r3) or \
-                    att_v.serialize() != att.serialize() or att_p.serialize() != att.serialize():
-                ctx.violation("serialisation/range-attestation-roundtrip", "range attestation does not survive serialisation", case)
-            challenges = alg.create_challenges(att_v.PK, att_v)
-            agg = alg.create_certainty_aggregate(att_v)
-            if alg.certainty(b"\x01", agg) != 0.0:
-                ctx.violation("range/accepted-without-any-answer", "certainty %r before any challenge was answered" % alg.certainty(b"\x01", agg), case)
-            for ch in challenges:
-                resp = alg.create_challenge_response(sk, att_p, ch)
-                alg.process_challenge_response(agg, ch, resp)
-            acc_score, rej_score = alg.certainty(b"\x01", agg), alg.certainty(b"\x00", agg)
-            stats["inside"] += 1
-            ctx.count(("range-in", a, b, v, tuple(d.log[:4])))
-            if acc_score != 1.0 or rej_score != 0.0:
-                ctx.violation("range/inside-rejected", "value %d in [%d, %d]: certainty %r (m2 = %d)" % (v, a, b, acc_score, priv.m2), case)
-            # the same proof presented for ranges that do not contain the value
-            for (a2, b2) in [(v + 1, max(b, v + 1) + 3), (max(0, a - 3) if v > 0 else 0, v - 1), (a + 1, b + 1), (a - 1, b - 1)]:
-                if a2 <= v <= b2 or b2 < a2 or (a2, b2) == (a, b):
-                    continue
-                alg2 = range_alg(a2, b2, ks)
-                agg2 = alg2.create_certainty_aggregate(att_v)
+    stats = {"inside": 0, "outside": 0, "float_sqrt_dev": 0, "forced": 0, "case_errors": 0}
+
+    class NotProvable(Exception):
+        """the honest builder failed for a value inside the inclusive range"""
+
+    def inside_case(alg, sk, pk, a, b, ks, v, case, with_wrong):
+            with patched_range(r) as d:
+                try:
+                    att = create_attest_pair(pk, v, a, b, ks)
+                    if v in (a, b):      # the path the community takes: PengBaoRangeAlgorithm.attest on the value's bytes
+                        alg.attest(pk, int_to_value(v))
+                except Diverged:
+                    raise NotProvable("the construction does not terminate") from None
+                except Exception as e:  # noqa: BLE001
+                    raise NotProvable("%s: %s" % (type(e).__name__, e)) from None
+                blob = att.serialize_private(pk)
+                att_p = PengBaoAttestation.unserialize_private(sk, blob, "f")
+                att_v = PengBaoAttestation.unserialize(att_p.serialize(), "f")
+                priv = att.privatedata
+                pv = att_p.privatedata
+                if (priv.m1, priv.m2, priv.m3, priv.r1, priv.r2, priv.r3) != (pv.m1, pv.m2, pv.m3, pv.r1, pv.r2, pv.r3) or \
+                        att_v.serialize() != att.serialize() or att_p.serialize() != att.serialize():
+                    ctx.violation("serialisation/range-attestation-roundtrip", "range attestation does not survive serialisation", case)
+                challenges = alg.create_challenges(att_v.PK, att_v)
+                agg = alg.create_certainty_aggregate(att_v)
+                if alg.certainty(b"\x01", agg) != 0.0:
+                    ctx.violation("range/accepted-without-any-answer", "certainty %r before any challenge was answered" % alg.certainty(b"\x01", agg), case)
                 for ch in challenges:
-                    alg2.process_challenge_response(agg2, ch, alg.create_challenge_response(sk, att_p, ch))
-                s2 = alg2.certainty(b"\x01", agg2)
-                ctx.count(("range-wrong", a2, b2, v))
-                if s2 != 0.0:
-                    ctx.violation("range/outside-accepted", "proof for %d in [%d, %d] accepted for [%d, %d]" % (v, a, b, a2, b2),
-                                  dict(case, a2=a2, b2=b2))
+                    resp = alg.create_challenge_response(sk, att_p, ch)
+                    alg.process_challenge_response(agg, ch, resp)
+                acc_score, rej_score = alg.certainty(b"\x01", agg), alg.certainty(b"\x00", agg)
+                stats["inside"] += 1
+                ctx.count(("range-in", a, b, v, tuple(d.log[:4])))
+                if acc_score != 1.0 or rej_score != 0.0:
+                    ctx.violation("range/inside-rejected", "value %d in [%d, %d]: certainty %r (m2 = %d)" % (v, a, b, acc_score, priv.m2), case)
+                # the same proof presented for ranges that do not contain the value
+                for (a2, b2) in [(v + 1, max(b, v + 1) + 3), (max(0, a - 3) if v > 0 else 0, v - 1), (a + 1, b + 1), (a - 1, b - 1)]:
+                    if not with_wrong or a2 <= v <= b2 or b2 < a2 or (a2, b2) == (a, b):
+                        continue
+                    alg2 = range_alg(a2, b2, ks)
+                    agg2 = alg2.create_certainty_aggregate(att_v)
+                    for ch in challenges:
+                        alg2.process_challenge_response(agg2, ch, alg.create_challenge_response(sk, att_p, ch))
+                    s2 = alg2.certainty(b"\x01", agg2)
+                    ctx.count(("range-wrong", a2, b2, v))
+                    if s2 != 0.0:
+                        ctx.violation("range/outside-accepted", "proof for %d in [%d, %d] accepted for [%d, %d]" % (v, a, b, a2, b2),
+                                      dict(case, a2=a2, b2=b2))
+                    s_, t_, _ = unpack_pair(challenges[0])
+                    x, y, u, w_ = priv.generate_response(s_, t_)
+                    verdict = att_v.publicdata.check(a2, b2, s_, t_, x, y, u, w_)
+                    acc, exact = accepted_draws(d.log, v, a, b)
+                    if exact:
+                        e0, e1, e2 = att.publicdata.el, att.publicdata.sqr1.el, att.publicdata.sqr2.el
+                        exp = [priv.m1, priv.m2, priv.m3, priv.r1, priv.r2, priv.r3, e0.c, e0.D, e0.D1, e0.D2, e1.c, e1.D, e1.D1, e1.D2,
+                               e2.c, e2.D, e2.D1, e2.D2, x, y, u, w_, 1 if verdict else 0]
+                        cases.append((range_model_case(v, a, b, a2, b2, s_, t_, acc, d.sec, (e0.c, e1.c, e2.c)), coq_res(("ok", exp))))
+                        meta.append(dict(case, a2=a2, b2=b2))
+                # tampered answers
                 s_, t_, _ = unpack_pair(challenges[0])
                 x, y, u, w_ = priv.generate_response(s_, t_)
-                verdict = att_v.publicdata.check(a2, b2, s_, t_, x, y, u, w_)
+                for tam in [(x + 1, y, u, w_), (x, y, u + 1, w_), (x, y + s_, u, w_), (-x, y, u, w_)]:
+                    if att_v.publicdata.check(a, b, s_, t_, *tam):
+                        ctx.violation("range/tampered-answer-accepted", "answer %r accepted" % (tam,), case)
+                verdict = att_v.publicdata.check(a, b, s_, t_, x, y, u, w_)
                 acc, exact = accepted_draws(d.log, v, a, b)
-                if exact:
+                if not exact:
+                    stats["float_sqrt_dev"] += 1
+                else:
                     e0, e1, e2 = att.publicdata.el, att.publicdata.sqr1.el, att.publicdata.sqr2.el
                     exp = [priv.m1, priv.m2, priv.m3, priv.r1, priv.r2, priv.r3, e0.c, e0.D, e0.D1, e0.D2, e1.c, e1.D, e1.D1, e1.D2,
                            e2.c, e2.D, e2.D1, e2.D2, x, y, u, w_, 1 if verdict else 0]
-                    cases.append((range_model_case(v, a, b, a2, b2, s_, t_, acc, d.sec, (e0.c, e1.c, e2.c)), coq_res(("ok", exp))))
-                    meta.append(dict(case, a2=a2, b2=b2))
-            # tampered answers
-            s_, t_, _ = unpack_pair(challenges[0])
-            x, y, u, w_ = priv.generate_response(s_, t_)
-            for tam in [(x + 1, y, u, w_), (x, y, u + 1, w_), (x, y + s_, u, w_), (-x, y, u, w_)]:
-                if att_v.publicdata.check(a, b, s_, t_, *tam):
-                    ctx.violation("range/tampered-answer-accepted", "answer %r accepted" % (tam,), case)
-            verdict = att_v.publicdata.check(a, b, s_, t_, x, y, u, w_)
-            acc, exact = accepted_draws(d.log, v, a, b)
-            if not exact:
-                stats["float_sqrt_dev"] += 1
-            else:
-                e0, e1, e2 = att.publicdata.el, att.publicdata.sqr1.el, att.publicdata.sqr2.el
-                exp = [priv.m1, priv.m2, priv.m3, priv.r1, priv.r2, priv.r3, e0.c, e0.D, e0.D1, e0.D2, e1.c, e1.D, e1.D1, e1.D2,
-                       e2.c, e2.D, e2.D1, e2.D2, x, y, u, w_, 1 if verdict else 0]
-                cases.append((range_model_case(v, a, b, a, b, s_, t_, acc, d.sec, (e0.c, e1.c, e2.c)), coq_res(("ok", exp))))
-                meta.append(case)
-        if i < 1:
-            ctx.sample({"range_proof": [a, b], "value": v, "accepted": acc_score, "m": [priv.m1, priv.m2, priv.m3]})
+                    cases.append((range_model_case(v, a, b, a, b, s_, t_, acc, d.sec, (e0.c, e1.c, e2.c)), coq_res(("ok", exp))))
+                    meta.append(case)
+            return acc_score, priv
+
+    # every shipped range format, then generated ranges
+    from ipv8.attestation.default_identity_formats import FORMATS
+    shipped = [(f["min"], f["max"], f["key_size"]) for f in FORMATS.values() if f.get("algorithm") == "pengbaorange"]
+    for i in range(nranges):
+        if i < len(shipped):
+            a, b, ks = shipped[i]
+        elif i % 4 == 0:
+            a, b, ks = 18, 200, 32
+        else:
+            a = r.choice([0, 1, 5, 18, 1000, r.randrange(0, 5000)])
+            b = max(1, a + r.choice([0, 1, 2, 10, 182, 4000, r.randrange(0, 60000)]))   # max = 0 is not supported (EL.create)
+            ks = 32 if r.random() < 0.8 else r.choice([40, 48, 64])
+        alg = range_alg(a, b, ks)
+        sk = guarded(alg.generate_secret_key)
+        pk = sk.public_key()
+        # both inclusive boundaries and their inner neighbours are always tried (a-1, b+1, a-2, b+2 are among the outside values)
+        inside_vals = []
+        for cand in [a, b, a + 1, b - 1, (a + b) // 2, r.randint(a, b)]:
+            if a <= cand <= b and cand not in inside_vals:
+                inside_vals.append(cand)
+        wrong_idx = r.randrange(len(inside_vals))
+        for j, v in enumerate(inside_vals):
+            case = {"kind": "range", "a": a, "b": b, "v": v, "key_size": ks}
+            try:
+                acc_score, priv = inside_case(alg, sk, pk, a, b, ks, v, case, j == wrong_idx or v == b)
+                if i < 1 and j < 1:
+                    ctx.sample({"range_proof": [a, b], "value": v, "accepted": acc_score, "m": [priv.m1, priv.m2, priv.m3]})
+            except NotProvable as e:
+                ctx.count(("range-in", a, b, v, "unprovable"))
+                ctx.violation("range/inside-not-provable", "the honest attester cannot build a range proof for value %d inside [%d, %d] (%s)"
+                              % (v, a, b, e), case)
+            except Exception:  # noqa: BLE001
+                import traceback
+                stats["case_errors"] += 1
+                ctx.broke("range case raised: value %d in [%d, %d]" % (v, a, b), traceback.format_exc())
         # values outside the range with the same key: nothing acceptable can be built
         for vo in sorted({a - 1, b + 1, a - 2, b + 2, max(0, a - r.randrange(1, 50)), b + r.randrange(1, 50), 0} - set(range(a, b + 1))):
             if vo < 0:
@@ -993,50 +1028,56 @@ def stage_range(ctx, have_model):
             stats["outside"] += 1
             ctx.count(("range-out", a, b, vo))
             case_o = {"kind": "range-out", "a": a, "b": b, "v": vo, "key_size": ks}
-            with patched_range(r) as d:
-                try:
-                    att_o = create_attest_pair(pk, vo, a, b, ks)
-                    res = ("built", None)
-                except Diverged:
-                    res = ("exc", "OutOfFuel")
-                except Exception as e:  # noqa: BLE001
-                    res = ("exc", type(e).__name__)
-                if res[0] == "built":
-                    pub = PengBaoAttestation.unserialize(att_o.serialize(), "f")
-                    agg = alg.create_certainty_aggregate(pub)
-                    for ch in alg.create_challenges(pub.PK, pub):
-                        alg.process_challenge_response(agg, ch, alg.create_challenge_response(sk, att_o, ch))
-                    if alg.certainty(b"\x01", agg) != 0.0:
-                        ctx.violation("range/outside-accepted", "a proof built for %d was accepted for [%d, %d]" % (vo, a, b), case_o)
+            try:
+                with patched_range(r) as d:
+                    try:
+                        att_o = create_attest_pair(pk, vo, a, b, ks)
+                        res = ("built", None)
+                    except Diverged:
+                        res = ("exc", "OutOfFuel")
+                    except Exception as e:  # noqa: BLE001
+                        res = ("exc", type(e).__name__)
+                    if res[0] == "built":
+                        pub = PengBaoAttestation.unserialize(att_o.serialize(), "f")
+                        agg = alg.create_certainty_aggregate(pub)
+                        for ch in alg.create_challenges(pub.PK, pub):
+                            alg.process_challenge_response(agg, ch, alg.create_challenge_response(sk, att_o, ch))
+                        if alg.certainty(b"\x01", agg) != 0.0:
+                            ctx.violation("range/outside-accepted", "a proof built for %d was accepted for [%d, %d]" % (vo, a, b), case_o)
+                        else:
+                            ctx.violation("range/outside-buildable", "create_attest_pair returned a proof for %d outside [%d, %d]" % (vo, a, b), case_o)
                     else:
-                        ctx.violation("range/outside-buildable", "create_attest_pair returned a proof for %d outside [%d, %d]" % (vo, a, b), case_o)
-                else:
-                    for variant in (0, 1):      # a prover who does not give up: negative m2 / negative m1
-                        forged = cheating_attest_pair(pk, vo, a, b, ks, r, variant)
-                        pubf = PengBaoAttestation.unserialize(forged.serialize(), "f")
-                        aggf = alg.create_certainty_aggregate(pubf)
-                        for ch in alg.create_challenges(pubf.PK, pubf):
-                            try:
-                                alg.process_challenge_response(aggf, ch, alg.create_challenge_response(sk, forged, ch))
-                            except Exception:  # noqa: BLE001   a negative answer cannot even be serialised
-                                stats["forged_unsendable"] = stats.get("forged_unsendable", 0) + 1
-                            # observation, not judged: the key owner knows the group order n = t1*t2 and can
-                            # send the answers reduced modulo n (see the report: trust model of the range proof)
-                            s_, t_, _ = unpack_pair(ch)
-                            xs = forged.privatedata.generate_response(s_, t_)
-                            if pubf.publicdata.check(a, b, s_, t_, *[q % sk.n for q in xs]):
-                                stats["forged_mod_group_order_accepted"] = stats.get("forged_mod_group_order_accepted", 0) + 1
-                                if FORGERY_KEY in open_findings:
-                                    ctx.violation(FORGERY_KEY, "a forged proof for %d, answers reduced modulo n = t1*t2, was accepted for [%d, %d]"
-                                                  % (vo, a, b), dict(case_o, kind="range-cheat-mod-n", variant=variant))
-                        ctx.count(("range-cheat", a, b, vo, variant))
-                        if alg.certainty(b"\x01", aggf) != 0.0:
-                            ctx.violation("range/outside-accepted", "a forged proof (negative part of the decomposition, variant %d) "
-                                          "for %d was accepted for [%d, %d]" % (variant, vo, a, b), dict(case_o, kind="range-cheat", variant=variant))
-                    acc = {"r": d.log[0], "ra": d.log[1], "raa": d.log[2], "w": d.log[3], "m4": d.log[4] if len(d.log) > 4 else 0,
-                           "m1": 0, "r1": 0, "r2": 0}
-                    cases.append((range_model_case(vo, a, b, a, b, 40000, 50000, acc, [], None), coq_res(res)))
-                    meta.append(case_o)
+                        for variant in (0, 1):      # a prover who does not give up: negative m2 / negative m1
+                            forged = cheating_attest_pair(pk, vo, a, b, ks, r, variant)
+                            pubf = PengBaoAttestation.unserialize(forged.serialize(), "f")
+                            aggf = alg.create_certainty_aggregate(pubf)
+                            for ch in alg.create_challenges(pubf.PK, pubf):
+                                try:
+                                    alg.process_challenge_response(aggf, ch, alg.create_challenge_response(sk, forged, ch))
+                                except Exception:  # noqa: BLE001   a negative answer cannot even be serialised
+                                    stats["forged_unsendable"] = stats.get("forged_unsendable", 0) + 1
+                                # observation, not judged: the key owner knows the group order n = t1*t2 and can
+                                # send the answers reduced modulo n (see the report: trust model of the range proof)
+                                s_, t_, _ = unpack_pair(ch)
+                                xs = forged.privatedata.generate_response(s_, t_)
+                                if pubf.publicdata.check(a, b, s_, t_, *[q % sk.n for q in xs]):
+                                    stats["forged_mod_group_order_accepted"] = stats.get("forged_mod_group_order_accepted", 0) + 1
+                                    if FORGERY_KEY in open_findings:
+                                        ctx.violation(FORGERY_KEY, "a forged proof for %d, answers reduced modulo n = t1*t2, was accepted for [%d, %d]"
+                                                      % (vo, a, b), dict(case_o, kind="range-cheat-mod-n", variant=variant))
+                            ctx.count(("range-cheat", a, b, vo, variant))
+                            if alg.certainty(b"\x01", aggf) != 0.0:
+                                ctx.violation("range/outside-accepted", "a forged proof (negative part of the decomposition, variant %d) "
+                                              "for %d was accepted for [%d, %d]" % (variant, vo, a, b), dict(case_o, kind="range-cheat", variant=variant))
+                        lg = list(d.log) + [0] * 5       # (a builder that refuses the value before drawing leaves the log empty)
+                        acc = {"r": lg[0], "ra": lg[1], "raa": lg[2], "w": lg[3], "m4": lg[4],
+                               "m1": 0, "r1": 0, "r2": 0}
+                        cases.append((range_model_case(vo, a, b, a, b, 40000, 50000, acc, [], None), coq_res(res)))
+                        meta.append(case_o)
+            except Exception:  # noqa: BLE001
+                import traceback
+                stats["case_errors"] += 1
+                ctx.broke("range case raised: value %d outside [%d, %d]" % (vo, a, b), traceback.format_exc())
     # forced draws: degenerate randomness, model correspondence only (not judged by the oracle)
     from ipv8.attestation.wallet.primitives.boneh import generate_keypair
     pk, sk = guarded(lambda: generate_keypair(32))
@@ -1059,7 +1100,9 @@ def stage_range(ctx, have_model):
                     res, cs = ("exc", "OutOfFuel"), None
                 except Exception as e:  # noqa: BLE001
                     res, cs = ("exc", type(e).__name__), None
-                acc, exact = accepted_draws(d.log, v, a, b)
+                acc, exact = accepted_draws(d.log, v, a, b) if len(d.log) >= 4 else ({}, False)
+                if len(d.log) < 4 and a <= v <= b:
+                    ctx.broke("range case (degenerate draws): the builder refused value %d inside [%d, %d] before drawing" % (v, a, b), str(res))
                 if exact and len(d.log) >= 4:
                     cases.append((range_model_case(v, a, b, a, b, 40000, 50000, acc, d.sec, cs), coq_res(res)))
                     meta.append({"kind": "range-forced", "forced": forced, "a": a, "b": b, "v": v})
@@ -1478,7 +1521,8 @@ def rerun_case(ctx, case):
                 att = create_attest_pair(sk.public_key(), v, a, b, ks)
             except (Diverged, Exception) as e:  # noqa: BLE001
                 if a <= v <= b:
-                    ctx.violation("range/inside-rejected", "no proof for %d in [%d, %d]: %s" % (v, a, b, type(e).__name__), case)
+                    ctx.violation("range/inside-not-provable", "the honest attester cannot build a range proof for value %d inside [%d, %d] (%s: %s)"
+                                  % (v, a, b, type(e).__name__, e), case)
                 return "create_attest_pair(%d, [%d, %d]) -> %s" % (v, a, b, type(e).__name__)
             pub = PengBaoAttestation.unserialize(att.serialize(), "f")
             agg = valg.create_certainty_aggregate(pub)
@@ -1615,6 +1659,9 @@ def run(ctx):
             keygen_ok = False
             ctx.broke("the implementation does not terminate (key generation finds no good Weil pairing, or a proof "
                       "loops) within the time limit: remaining end-to-end stages skipped", "stage %s" % name)
+        except Exception:  # noqa: BLE001   one stage failing must not hide the verdicts of the others
+            import traceback
+            ctx.broke("stage %s raised" % name, traceback.format_exc())
         walls[name] = round(time.time() - t, 1)
     t = time.time()
     if keygen_ok:
@@ -1622,6 +1669,9 @@ def run(ctx):
             with_deadline(lambda: stage_community(ctx), 600 if ctx.quick else 1800)
         except KeygenTimeout:
             ctx.broke("the two-node community run does not terminate within the time limit", "stage community")
+        except Exception:  # noqa: BLE001
+            import traceback
+            ctx.broke("stage community raised", traceback.format_exc())
     walls["community"] = round(time.time() - t, 1)
     ctx.extra["stage_wall_s"] = walls
     ctx.coverage["rule"] = (
